@@ -14,6 +14,7 @@ def swarm(rng):
                 "n_steps": rng.choice([15, 25, 40]), "p_sformula": 0.0, "p_objref": 0.0, "p_uncached": rng.choice([0.0, 0.2, 0.5, 0.7]),
                 "recalc": rng.random() < 0.5, "p_selfrec": 0.5, "p_scalar": 0.2, "items": False,
                 "p_recalc_fault": rng.choice([0.0, 0.3, 0.6])})
+    cfg["gadget_uncached_chain"] = rng.random() < 0.1
     return cfg
 
 
@@ -51,12 +52,33 @@ class C06(PropBase):
         self.mach, self.ctx = mach, ctx
         if ctx.doc is None:
             mach.build(cfg["n_spaces"], cfg["n_cells"], cfg["n_refs"])
+            gadget = cfg.get("gadget_uncached_chain") and mach.ref.space("ZU") is None
+            if gadget:
+                # a cached element reached from a cached one through TWO uncached cells in a row: the edit of the inner one
+                # has to discard the outer one
+                def cells(name, cached, ret):
+                    return {"op": "new_cells", "space": "ZU", "name": name, "is_cached": cached,
+                            "formula": {"style": "lambda", "params": [["x", None]], "ret": ret}}
+                call = lambda n: ["call", [], n, [["p", "x"]], "pos", ["x"]]
+                for op in ({"op": "new_space", "parent": "", "name": "ZU", "bases": []},
+                           cells("f", True, ["bin", "+", ["p", "x"], ["c", 7]]),
+                           cells("g", False, ["bin", "+", call("f"), ["c", 1]]),
+                           cells("h", False, ["bin", "*", call("g"), ["c", 2]]),
+                           cells("u", True, ["bin", "+", call("h"), ["c", 3]])):
+                    mach.do(op)
             steps = list(mach.steps)
             ctx.steps = steps
             nb = len(steps)
             ev = grammar.Evaluator(mach.ref)
             self.ev = ev
             for i in range(cfg["n_steps"]):
+                if gadget and i in (2, cfg["n_steps"] // 2):
+                    for op in ({"op": "eval", "loc": ["ZU"], "name": "u", "args": [1], "spell": "pos"},
+                               mach.frng.choice([{"op": "set_value", "space": "ZU", "name": "f", "args": [1], "value": mach.fresh.next(), "how": "setitem"},
+                                                 {"op": "clear_at", "space": "ZU", "name": "f", "args": [1]}]),
+                               {"op": "eval", "loc": ["ZU"], "name": "u", "args": [1], "spell": "pos"}):
+                        steps.append(op)
+                        self.step(op)
                 op = mach.next_op(getattr(self, "weights", None) or WEIGHTS) if mach.sched.random() > 0.05 else {"op": "set_recalc", "v": mach.sched.random() < 0.5}
                 if op["op"] in ("clear_items",):
                     continue
